@@ -122,6 +122,8 @@ def build(case, label):
                 trial.complete(M)
             else:
                 trial.complete(infeasible_reason='no')          # INFEASIBLE, no measurement at all
+        elif case.get('variant') == 'after_complete':
+            trial.complete(M)                                       # the trial has finished before the call under test
         if 'missing_trial' in state:
             trial_id = 99
         if 'immutable_study' in state:
@@ -181,6 +183,12 @@ def build(case, label):
     }
     if method not in calls:
         return None, None
+    if case.get('variant') == 'twice':
+        once = calls[method]
+        try:
+            once()                                                  # the call under test is the second identical call
+        except Exception:  # noqa: BLE001
+            pass
     if method.startswith('Study.from_') and 'missing_study' in state and method == 'Study.from_owner_and_id':
         calls[method] = lambda: clients.Study.from_owner_and_id(owner, sid)
     return calls[method], client
@@ -204,10 +212,13 @@ def main(argv=None):
     ap.add_argument('--cases')
     ap.add_argument('--out')
     ap.add_argument('--case', nargs='+')
+    ap.add_argument('--variant', help='succeeded | twice | after_complete | on_trial')
     ap.add_argument('--deployments', default='L,R')
     a = ap.parse_args(argv)
     if a.case:
         cases = [{'id': 'cli', 'method': a.case[0], 'state': a.case[1:]}]
+        if a.variant:
+            cases[0]['variant'] = a.variant
     else:
         cases = json.load(open(a.cases))
     deployments = [d for d in a.deployments.split(',') if d]
